@@ -47,7 +47,7 @@ EvLaunch(e) ==                            \* a future is created for one job: ne
 EvStart(e) == /\ Job(e) \in Jobs /\ WorkerStart(Job(e))
 EvEnd(e) ==   /\ Job(e) \in Jobs /\ w[Job(e)] = "executing"
               /\ (e.r = "err") = (Job(e) \in fails)
-              /\ w' = [w EXCEPT ![Job(e)] = e.r]
+              /\ w' = [w EXCEPT ![Job(e)] = e.r]      \* body end, result and future completion are merged in the trace
               /\ pending' = pending \ {Job(e)}
               /\ UNCHANGED <<futured, errors, tasks, loop>> /\ Frame
 EvFinal(e) == /\ loop' = e.outcome
